@@ -86,9 +86,9 @@ def gen_c15(rng, n, thorough=False):
                 c = rng.choice([c for c in live if c not in stalled])
                 live.remove(c)
                 steps.append(garbage(c, rng))
-            elif x < 0.86 and live:
-                # a half frame: the connection keeps its slot but is not used for requests any more
-                c = rng.choice(live)
+            elif x < 0.86 and [c for c in live if c not in stalled]:
+                # a half frame: the connection keeps its slot but is not used for anything else any more
+                c = rng.choice([c for c in live if c not in stalled])
                 steps.append(partial(c))
                 stalled.add(c)
             elif x < 0.92:
